@@ -33,7 +33,9 @@ RULE = ("random circuits of 1-4 persistent-capable blocks (Input, Counter, Timer
         "the timer-family circuits with >= 2 blocks one or two Input/Counter blocks send their output as a 'put' "
         "event (plain, EventCond('put', None), EventCond(None, 'put'), EventCond(None, None)) to another persistent "
         "block created before or after them, with falsy and truthy initial/restored values and valid entries of "
-        "both in the initial storage; in 30 % of the timer-family circuits the STORAGE FAILS (a mapping whose "
+        "both in the initial storage; the constructor arguments persistent / sync_state are written as other truthy / falsy "
+        "values in 15 % of the blocks and the expiration of a restarted block as float, int or string with units; in 30 % of "
+        "the timer-family circuits the STORAGE FAILS (a mapping whose "
         "__setitem__, pop/__delitem__, keys()/iteration and __getitem__ of chosen keys raise OSError / RuntimeError / an "
         "application exception on demand): reads of block entries and of the stop time, keys() and the purge at the "
         "start of the first or of a restarted circuit, writes (and the pop that removes the stale entry) during a "
@@ -284,10 +286,21 @@ def enc_kind(spec):
     return f"fsm {lst(t['states'])} {trans} {timers} {conds} {enters} {out} {t['init']} {enc_data(t['sdata'])}"
 
 
+def ctor_arg(spec, which):
+    """the constructor argument as the application writes it: `persistent` / `sync_state` may be any truthy / falsy
+    value (`p_raw`, `s_raw`), `expiration` None, a number of seconds or a string with units (`exp_raw`)"""
+    if which + '_raw' in spec:
+        return spec[which + '_raw'][0]
+    if which == 'exp':
+        exp = spec.get('exp')
+        return None if exp is None else exp / 1e6
+    return spec[which]
+
+
 def make_block(spec, life):
     k, name = spec['kind'], spec['name']
     exp = spec.get('exp')
-    common = {'persistent': spec['p'], 'sync_state': spec['s'], 'expiration': None if exp is None else exp / 1e6}
+    common = {'persistent': ctor_arg(spec, 'p'), 'sync_state': ctor_arg(spec, 's'), 'expiration': ctor_arg(spec, 'exp')}
     link = spec.get('link')
     if link is not None:
         et, ef = ('put' if link['etrue'] else None), ('put' if link['efalse'] else None)
@@ -480,8 +493,8 @@ class Life:
             exp = spec.get('exp')
             link = spec.get('link')
             lk = '-' if link is None else f"L{link['dest']}.{int(link['etrue'])}.{int(link['efalse'])}"
-            self.lines.append(f"persist blk {hexs(key_of(spec))} {int(spec['p'])} {int(spec['s'])} "
-                              f"{'n' if exp is None else exp} {lk} {enc_kind(spec)}")
+            self.lines.append(f"persist blk {hexs(key_of(spec))} {enc(ctor_arg(spec, 'p'))} {enc(ctor_arg(spec, 's'))} "
+                              f"{enc(ctor_arg(spec, 'exp'))} {lk} {enc_kind(spec)}")
             self.trace.append('ok')
         self.lines.append('persist store ' + enc_store(self.store.raw()))
         self.trace.append('ok ' + enc_store(self.store.raw()))
@@ -834,6 +847,11 @@ def _gen_block(rng, i, family):
     spec['p'] = rng.random() < 0.9
     spec['s'] = rng.random() < 0.75
     spec['exp'] = None
+    if rng.random() < 0.15:
+        # the flags written as other truthy / falsy values
+        spec['p_raw'] = [rng.choice([1, 'yes', 2.5, (0,)]) if spec['p'] else rng.choice([0, '', None, ()])]
+    if rng.random() < 0.15:
+        spec['s_raw'] = [rng.choice([1, 'on', 0.5]) if spec['s'] else rng.choice([0, '', None, 0.0])]
     return spec
 
 
@@ -965,8 +983,10 @@ def _gen_links(rng, scn):
         for b in (src, blocks[j]):
             if rng.random() < 0.85:
                 b['p'] = True
+                b.pop('p_raw', None)
             if rng.random() < 0.8:
                 b['s'] = True
+                b.pop('s_raw', None)
         used.append(i)
         dests.add(j)
     return sorted(set(used) | dests) if used else []
@@ -1206,7 +1226,7 @@ def scenarios(rng, tier):
     yield _condnone_seed(False)
     yield _cancelled_shutdown_seed(True)
     yield _cancelled_shutdown_seed(False)
-    n = 3000 if tier == 'quick' else 16000
+    n = 2400 if tier == 'quick' else 16000
     for i in range(n):
         yield _gen_scenario(rng, tier, 'b' if i % 6 == 5 else 'a')
 
@@ -1328,9 +1348,21 @@ def _run_impl(scn, world):
                 continue
             s2 = copy.deepcopy(spec)
             s2['exp'] = exps[i]
+            s2.pop('exp_raw', None)
+            if exps[i] is not None and exps[i] >= 0 and exps[i] % SEC == 0:
+                # whole seconds: written as a float, an int or a string with units
+                n = exps[i] // SEC
+                form = (n + i + r['snap']) % 3
+                if form == 1:
+                    s2['exp_raw'] = [int(n)]
+                elif form == 2:
+                    s2['exp_raw'] = [f'{n // 60}m{n % 60}s' if n >= 60 and n % 7 == 0 else f'{n}s']
+            if s2['s'] != r['sync'][i]:
+                s2.pop('s_raw', None)
             s2['s'] = r['sync'][i]
             if i in r['nopersist']:
                 s2['p'] = False
+                s2.pop('p_raw', None)
             specs2.append(s2)
             idxmap.append(i)
         if not specs2:
@@ -1346,7 +1378,7 @@ def _run_impl(scn, world):
             sf = None               # (block indices of the fault refer to the undropped list)
         life.run(now2, 'ok', False, [['adv', now2 + (100 * TICK if family == 'a' else SEC)]], horizon, configs,
                  slow=scn.get('slow'), start_fault=sf)
-        ref = Life(world, [dict(s, p=False) for s in specs2], Storage(), family, [], [])
+        ref = Life(world, [{k: v for k, v in dict(s, p=False).items() if k != 'p_raw'} for s in specs2], Storage(), family, [], [])
         ref.run(now2, 'ok', False, [], now2, configs)
         restarts.append({'r': r, 'snap_index': r['snap'] % len(first.snaps), 'down': down, 'now2': now2, 'exps': exps,
                          'specs2': specs2, 'idxmap': idxmap, 'snaps': life.snaps, 'ref': ref.snaps,
